@@ -163,12 +163,24 @@ fn expected_render(
     let node = tree.node_by_id(export_id).ok_or("no such id")?;
     let bbox = node.abs_layer_bounding_box().ok_or("node has zero size")?;
     let nsize = fit_size(fit, bbox.size().to_int_size()).ok_or("target size is zero")?;
-    // does the node, drawn with `ts`, fill the canvas that was sized from its own box?
-    let filled_w = bbox.width() * ts.sx;
-    let filled_h = bbox.height() * ts.sy;
-    // the canvas comes from the node box rounded to integers and then fitted: allow half a source pixel (scaled) + rounding
-    if (filled_w - nsize.width() as f32).abs() > 0.5 * ts.sx + 1.0 || (filled_h - nsize.height() as f32).abs() > 0.5 * ts.sy + 1.0 {
-        notes.push(format!("node-does-not-fill-canvas node {}x{} canvas {}x{}", num(filled_w), num(filled_h), nsize.width(), nsize.height()));
+    // Export rules: without --export-area-page the node is scaled by the factor that maps its integer box onto its
+    // canvas; with --export-area-page it is scaled like the page.
+    let nbox = bbox.size().to_int_size();
+    let ts = if area_page {
+        ts
+    } else {
+        tiny_skia::Transform::from_scale(
+            nsize.width() as f32 / nbox.width() as f32,
+            nsize.height() as f32 / nbox.height() as f32,
+        )
+    };
+    if !area_page {
+        // the node, drawn with `ts`, must fill its canvas (half a source pixel, scaled, + rounding)
+        let filled_w = bbox.width() * ts.sx;
+        let filled_h = bbox.height() * ts.sy;
+        if (filled_w - nsize.width() as f32).abs() > 0.5 * ts.sx + 1.0 || (filled_h - nsize.height() as f32).abs() > 0.5 * ts.sy + 1.0 {
+            notes.push(format!("node-does-not-fill-canvas node {}x{} canvas {}x{}", num(filled_w), num(filled_h), nsize.width(), nsize.height()));
+        }
     }
     let mut pm = tiny_skia::Pixmap::new(nsize.width(), nsize.height()).ok_or("canvas")?;
     if !area_page {
@@ -186,9 +198,6 @@ fn expected_render(
         // the node at its place on the page: the offset is in device space, i.e. scaled like the node
         let ox = (bbox.x() * ts.sx) as i32;
         let oy = (bbox.y() * ts.sy) as i32;
-        if (ox, oy) != (bbox.x() as i32, bbox.y() as i32) {
-            notes.push(format!("scaled-offset {},{} vs unscaled {},{}", ox, oy, bbox.x() as i32, bbox.y() as i32));
-        }
         // a node whose offset box does not fit i32 lies outside the page: nothing to draw
         if tiny_skia::IntRect::from_xywh(ox, oy, pm.width(), pm.height()).is_some() {
             page.draw_pixmap(ox, oy, pm.as_ref(), &tiny_skia::PixmapPaint::default(), tiny_skia::Transform::default(), None);
